@@ -18,7 +18,8 @@ ASSUMPTIONS = ["init times are whole seconds >= 0 (so that int(t/86400) is the U
                "-tod takes hours of day; init times at whole hours",
                "C03_dims_are_intersection / C03_dims_error: no hypothesis beyond the result of Data.init; "
                "getScores_refines: arrays of the declared shapes (wfInput)"]
-RULE = ("data.subset: generated datasets with each of the nine subsetting options (+ -obsrange) present with p=1/2: "
+RULE = ("data.subset: generated datasets (datagen.gen_dataset, see C01: every field kind, stations whose metadata differ "
+        "between the files) with each of the nine subsetting options (+ -obsrange) present with p=1/2: "
         "values from the data's own coordinates, values matching nothing, repeated values, range end points equal to a "
         "station's coordinate or 0.5 off, dates/hours selecting strict subsets; observable = verified times/leadtimes/"
         "locations, error exit, and every request's answer; thorough adds all 2^9 option subsets on 20 datasets")
